@@ -503,7 +503,7 @@ func reportUpdate(w *bufio.Writer, id int, n0 int, srcp, resp interface{}, befor
 		default: cat = 0
 		}
 		if cat >= 0 && zf[cat] && sf.IsZero() {
-			if post[i] != pre[i] { verdict = fmt.Sprintf("zero-valued source field %s (category %d selected) but the target field changed from %s to %s", name, cat, pre[i], post[i]) }
+			if post[i] != pre[i] { verdict = fmt.Sprintf("zero-valued source field %s (category %d selected, kind %s) but the target field changed from %s to %s", name, cat, sf.Kind(), pre[i], post[i]) }
 			continue
 		}
 		if !sf.IsZero() && sf.Kind() != reflect.Struct && sf.Kind() != reflect.Array { // nested structs are updated field-wise (their own nil guards / zero guards apply)
